@@ -5,6 +5,7 @@
 -/
 import JoinModel.Refinement
 import JoinModel.Lemmas.OrderFacts
+import JoinModel.Lemmas.ParseHead
 namespace JoinModel.Props
 open JoinModel
 
@@ -33,6 +34,30 @@ theorem specRun_eq (σ : World) (parent : Option String) (p : Input) (kind : Kin
 theorem generated_eq_reference (σ : World) (parent : Option String) (p : Input) (kind : Kind) (code : Code)
     (hs : Supported p kind) (hgen : gen p kind = .ok code) :
     evalCode σ parent code = specRun σ parent p kind := sync_refines σ parent p kind code hs hgen
+
+/-- What the refinement asks of an invocation *beyond* what the parser itself guarantees: no `custom_joiner`, no
+    `lazy_branches`, default transposition, pairwise distinct `let` names (rustc rejects a repeated binding), and a macro
+    kind other than the async try ones (which have `async_try_refines`). -/
+structure PlainInvocation (p : Input) (kind : Kind) : Prop where
+  noJoiner : p.joiner = none
+  noLazy : p.lazy = none
+  namesNodup : (p.branches.filterMap fun b => b.pat.map (·.ident)).Nodup
+  asyncNotTry : kind.isAsync = true → kind.isTry = false
+  transposeDefault : p.transpose ≠ some false
+
+/-- every program the parser model accepts — for every behaviour of syn — is one the refinement speaks about -/
+theorem accepted_supported (o : Oracle) (toks : Toks) (p : Input) (kind : Kind)
+    (hparse : parseMacroInput o toks = .ok p) (hd : PlainInvocation p kind) : Supported p kind :=
+  { noJoiner := hd.noJoiner, noLazy := hd.noLazy, namesNodup := hd.namesNodup, asyncNotTry := hd.asyncNotTry,
+    transposeDefault := hd.transposeDefault, firstInitial := parse_first_initial o toks p hparse }
+
+/-- **From the macro's tokens to its behaviour.**  Parser, generator and evaluation of the generated code composed:
+    whatever token list the parser accepts (any oracle), the code generated from what it parsed behaves like the
+    reference semantics of what it parsed. -/
+theorem accepted_eq_reference (o : Oracle) (toks : Toks) (σ : World) (parent : Option String) (p : Input) (kind : Kind)
+    (code : Code) (hparse : parseMacroInput o toks = .ok p) (hd : PlainInvocation p kind) (hgen : gen p kind = .ok code) :
+    evalCode σ parent code = specRun σ parent p kind :=
+  sync_refines σ parent p kind code (accepted_supported o toks p kind hparse hd) hgen
 
 /-- the initial state satisfies the try-loop invariant -/
 theorem allSucc_init (n : Nat) : AllSucc (List.replicate n none) := by
